@@ -26,6 +26,16 @@ func quickGrammar() jsonGrammar {
 	}
 }
 
+// structGrammar: the inputs for containers of OV elements / values (objects with omitted fields)
+func structGrammar(thorough bool) jsonGrammar {
+	atoms := []string{`{}`, `{"p":1}`, `{"q":2}`, `{"p":1,"q":2}`, `null`, `1`}
+	g := jsonGrammar{ArrAtoms: atoms, ArrMaxLen: 2, ObjKeys: []string{`"1"`, `"2"`, `"a"`}, ObjVals: atoms, ObjMaxLen: 2, PrefixAll: true, SubstMax: 0}
+	if thorough {
+		g.ArrMaxLen, g.ObjMaxLen = 3, 3
+	}
+	return g
+}
+
 func thoroughGrammar() jsonGrammar {
 	g := quickGrammar()
 	g.ArrMaxLen, g.ObjMaxLen, g.SubstMax = 3, 3, 12
